@@ -32,7 +32,8 @@ def signed_root(version, keys, t, signers, rng, km_keys=None, km_t=1, bad_signer
         env["signatures"][k.hex] = gpg_entry(k, data, rng, rng.choice(gentries.valid_states(True)))
     for k in bad_signers:
         if k.hex not in env["signatures"]:
-            st = rng.choice(["bitflip", "other_payload", "malleated", "hdr_flip", "boundary_shift", "other_key", "raw_sig_with_hdr"])
+            st = rng.choice(["bitflip", "other_payload", "malleated", "hdr_flip", "boundary_shift", "other_key", "raw_sig_with_hdr",
+                             "hugehdr_garbage_sig"])
             env["signatures"][k.hex] = gpg_entry(k, data, rng, st)
     for k in unauthorized:
         if k.hex not in env["signatures"]:
@@ -130,10 +131,12 @@ def gen_pair(rng, row=None):
     if row is None:
         row = rng.choice(["accept", "accept", "accept", "version", "old_rule", "old_rule", "new_rule", "new_rule", "type",
                           "new_malformed", "trusted_malformed", "no_root_delegation", "two"])
-    v = rng.choice([1, 1, 2, 3, 7, 41, 2**31 - 1, 2**53, 10**20])
+    v = rng.choice([1, 1, 2, 3, 7, 41, 2**31 - 1, 2**53, 10**20, 2**1024, 10**400])
     nK = rng.randint(1, 3)
     K = U[:nK]
     t = rng.randint(1, nK)
+    if row in ("old_rule", "two") and rng.random() < 0.35:
+        t = nK + rng.randint(1, 2)  # legal shape (drafts): threshold above the number of listed keys - can never be met
     # new key set: same / rotated / superset / disjoint
     mode = rng.choice(["same", "rotate", "superset", "disjoint", "subset"])
     if mode == "same":
@@ -163,9 +166,12 @@ def gen_pair(rng, row=None):
     new_ok = "new_rule" not in fails
     signers = set()
     if old_ok:
+        if t > len(K):
+            t = len(K)
+            trusted = signed_root(v, K, t, rng.sample(K, rng.randint(0, nK)), rng, junk=rng.choice([0, 0, 1]))
         signers.update(k.hex for k in rng.sample(K, rng.randint(t, len(K))))
     else:
-        signers.update(k.hex for k in rng.sample(K, t - 1))
+        signers.update(k.hex for k in rng.sample(K, min(len(K), t - 1)))
     k2only = [k for k in K2 if k.hex not in {x.hex for x in K}]
     if new_ok:
         have = [k for k in K2 if k.hex in signers]
@@ -201,6 +207,10 @@ def gen_pair(rng, row=None):
                         K2 = K2 + [extra.pop()]
                     else:
                         break
+    if not new_ok and rng.random() < 0.4:
+        # the new root demands more signers than it lists; every listed key signs (and further entries follow)
+        t2 = len(K2) + 1
+        signers.update(k.hex for k in K2 if (old_ok or k.hex not in {x.hex for x in K}))
     bykey = {k.hex: k for k in U}
     signer_keys = [bykey[h] for h in signers]
     bad = [k for k in (K + K2) if k.hex not in signers and rng.random() < 0.4]
